@@ -48,7 +48,7 @@ MANIFEST = {
             "R4 records that passive code is hoisted without a dependence "
             "check (known finding C19-b, confirmed input).",
     "technique": "def-use of the term sign + statement-order dominance + "
-                 "obligation table + consulted-facts inspection",
+                 "obligation table + consulted-facts inspection + refusal-weakening check against the reviewed guard snapshot",
 }
 AT = "psyclone.psyad.transformations.assignment_trans.AssignmentTrans"
 AV = "psyclone.psyad.adjoint_visitor.AdjointVisitor"
